@@ -1,8 +1,182 @@
 import PyGam.Drv.Common
+import PyGam.Model.Validate
 namespace PyGam.Drv.C11
-open PyGam PyGam.Drv
+open PyGam PyGam.Drv PyGam.Validate
+
+/-! value / array transport: `nan`, `inf`, `-inf`, `num/den`; vectors `n|a,b,c`; matrices `n|a,b;c,d`; `-` = None -/
+
+def parseVal? (s : String) : Option Val :=
+  if s = "nan" then some .nan
+  else if s = "inf" then some .posInf
+  else if s = "-inf" then some .negInf
+  else (parseRat? s).map .fin
+
+def showVal : Val → String
+  | .nan => "nan"
+  | .posInf => "inf"
+  | .negInf => "-inf"
+  | .fin r => showRat r
+
+def splitCount? (s : String) : Option (Nat × String) :=
+  match s.splitOn "|" with
+  | [n, body] => do let n ← n.toNat?; some (n, body)
+  | _ => none
+
+def parseRow? (s : String) : Option (List Val) :=
+  if s = "" then some [] else (s.splitOn ",").mapM parseVal?
+
+def parseVec? (s : String) : Option (List Val) := do
+  let (n, body) ← splitCount? s
+  let v ← parseRow? body
+  if v.length = n then some v else none
+
+def parseMat? (s : String) : Option (List (List Val)) := do
+  let (n, body) ← splitCount? s
+  if n = 0 then (if body = "" then some [] else none)
+  else
+    let rows ← (body.splitOn ";").mapM parseRow?
+    if rows.length = n then some rows else none
+
+def parseOpt? {α : Type} (p : String → Option α) (s : String) : Option (Option α) :=
+  if s = "-" then some none else (p s).map some
+
+def parseBool? (s : String) : Option Bool :=
+  if s = "1" then some true else if s = "0" then some false else none
+
+def parseLink? : String → Option Link
+  | "identity" => some .identity
+  | "logit" => some .logit
+  | "log" => some .log
+  | "inverse" => some .inverse
+  | "inv_squared" => some .invSquared
+  | _ => none
+
+def parseEntry? : String → Option Entry
+  | "fit" => some .fit
+  | "predict" => some .predict
+  | "predict_mu" => some .predictMu
+  | "predict_proba" => some .predictProba
+  | "confidence_intervals" => some .confidenceIntervals
+  | "prediction_intervals" => some .predictionIntervals
+  | "partial_dependence" => some .partialDependence
+  | "deviance_residuals" => some .devianceResiduals
+  | "loglikelihood" => some .loglikelihood
+  | "score" => some .score
+  | "accuracy" => some .accuracy
+  | "logistic_score" => some .logisticScore
+  | "gridsearch" => some .gridsearch
+  | "sample" => some .sample
+  | "fit_quantile" => some .fitQuantile
+  | "poisson_fit" => some .poissonFit
+  | "poisson_predict" => some .poissonPredict
+  | "poisson_loglikelihood" => some .poissonLoglikelihood
+  | "poisson_gridsearch" => some .poissonGridsearch
+  | _ => none
+
+def parseNatList? (s : String) : Option (List Nat) :=
+  if s = "" then some [] else (s.splitOn ",").mapM String.toNat?
+
+/-- `f~lo~hi` -/
+def parseCat? (s : String) : Option Cat :=
+  match s.splitOn "~" with
+  | [f, lo, hi] => do
+      let f ← f.toNat?; let lo ← parseRat? lo; let hi ← parseRat? hi
+      some ⟨f, lo, hi⟩
+  | _ => none
+
+/-- `-` (unfitted) or `mFeatures:f0,f1,…:c0;c1;…` -/
+def parseFit? (s : String) : Option (Option Fit) :=
+  if s = "-" then some none
+  else match s.splitOn ":" with
+    | [m, fs, cs] => do
+        let m ← m.toNat?
+        let fs ← parseNatList? fs
+        let cs ← if cs = "" then some [] else (cs.splitOn ";").mapM parseCat?
+        some (some ⟨m, fs, cs⟩)
+    | _ => none
+
+def showOutcome : Outcome → String
+  | .ok => "ok"
+  | .valueError => "ValueError"
+  | .attributeError => "AttributeError"
+  | .other => "other"
+
+def showStep : Step → String
+  | .fitted => "fitted"
+  | .linkResolved => "linkResolved"
+  | .yFinite _ => "yFinite"
+  | .yDomain _ => "yDomain"
+  | .xFresh => "xFresh"
+  | .xFitted => "xFitted"
+  | .sampleAtXFitted => "sampleAtXFitted"
+  | .compile => "compile"
+  | .lenXY => "lenXY"
+  | .vecFinite .weights => "weightsFinite"
+  | .vecFinite .exposure => "exposureFinite"
+  | .lenEq _ _ => "lenEq"
+  | .prodFinite => "prodFinite"
+  | .broadcastXY => "broadcastXY"
+
+/-- label of the first failing step (evidence only; the verdict uses `outcome`) -/
+def firstFail (m : Model) (a : Args) (l : List Step) : String :=
+  match l.find? (fun s => !s.passes m a) with
+  | some s => showStep s
+  | none => "-"
+
+def stripKey? (key : String) (s : String) : Option String :=
+  if s.startsWith (key ++ "=") then some ((s.drop (key.length + 1)).toString) else none
 
 /-- operations of the C11 model driver (`C11 <op> <args…>`); `none` ↦ `bad-op` -/
 def handle : List String → Option String
+  | ["call", e, link, levels, tf, validated, fit, x, y, w, ex, sx, conv, coef] => do
+      let e ← parseEntry? e
+      let link ← parseLink? link
+      let levels ← parseRat? levels
+      let tf ← if tf = "auto" then some none else (parseNatList? tf).map some
+      let validated ← parseBool? validated
+      let fit ← parseFit? fit
+      let X ← (stripKey? "X" x) >>= parseMat?
+      let y ← (stripKey? "y" y) >>= parseVec?
+      let w ← (stripKey? "w" w) >>= parseOpt? parseVec?
+      let ex ← (stripKey? "e" ex) >>= parseOpt? parseVec?
+      let sx ← (stripKey? "sx" sx) >>= parseOpt? parseMat?
+      let conv ← (stripKey? "conv" conv) >>= parseBool?
+      let coef ← (stripKey? "coef" coef) >>= parseBool?
+      let m : Model := ⟨link, levels, tf, validated, fit⟩
+      let a : Args := { X := X, y := y, weights := w, exposure := ex, sampleAtX := sx,
+                        converged := conv, coefOnly := coef }
+      some (showOutcome (outcome e m a) ++ " " ++ firstFail m a (table e m.isFitted a.converged))
+  | ["isnan", link, levels, v] => do
+      let link ← parseLink? link; let levels ← parseRat? levels; let v ← parseVal? v
+      some (if linkIsNaN link levels v then "1" else "0")
+  | ["domain", link, levels] => do
+      let link ← parseLink? link; let levels ← parseRat? levels
+      match linkDomain link levels with
+      | some (a, b) => some (showVal a ++ " " ++ showVal b)
+      | none => some "empty"
+  | ["cast32", v] => do
+      let v ← parseVal? v
+      some (showVal (match castF32 v with | .fin _ => .fin 0 | s => s))
+  | ["adjust", link, levels, y] => do
+      let link ← parseLink? link; let levels ← parseRat? levels; let y ← parseRat? y
+      let y' := initialAdjust levels y
+      some (showRat y' ++ " " ++ (if linkFiniteAt link levels y' then "1" else "0"))
+  | ["check_array1", mn, v] => do
+      let mn ← mn.toNat?; let v ← parseVec? v
+      some (if checkArray1 v mn then "ok" else "ValueError")
+  | ["check_array2", nf, mn, x] => do
+      let nf ← parseOpt? String.toNat? nf; let mn ← mn.toNat?; let x ← parseMat? x
+      some (if checkArray2 x nf mn then "ok" else "ValueError")
+  | ["check_lengths", ls] => do
+      let ls ← parseNatList? ls
+      some (if checkLengths ls then "ok" else "ValueError")
+  | ["check_y", link, levels, mn, v] => do
+      let link ← parseLink? link; let levels ← parseRat? levels; let mn ← mn.toNat?; let v ← parseVec? v
+      some (if checkArray1 v mn && checkYDomain link levels v then "ok" else "ValueError")
+  | ["check_X", fit, mn, x] => do
+      let fit ← parseFit? fit; let mn ← mn.toNat?; let x ← parseMat? x
+      match fit with
+      | none => some (if checkArray2 x none mn then "ok" else "ValueError")
+      | some f => some (if checkArray2 x (some f.nFeats) mn && f.cats.all (catOk x) then "ok" else "ValueError")
   | _ => none
 end PyGam.Drv.C11
